@@ -311,4 +311,78 @@ example : (codabarModules refTables [49]).map (fun m => cbDecodeRow refTables fa
 example : (codabarModules refTables [49, 50]).map (fun m => cbDecodeRow refTables false (paddedRow 0 1 1 m)) =
     .ok (.error .notFound) := by decide +kernel
 
+/-! ## accepted reads verify (C10 clause, row level) -/
+
+/-- Clause (C10) "Readers never return a symbol whose check characters do not verify", on the Code 93 row-decoder
+    model: whatever pixel row is given, a result is returned only for a character string `s` (data, C, K) that passed
+    both `checkOneChecksum` tests; the text is the unescaped data part.  By inspection of the control flow. -/
+theorem code93_row_result_verifies (T : Tables) (row : List Bool) (h : Hit) (hr : c93DecodeRow T row = .ok h) :
+    ∃ s, 2 ≤ s.length ∧ c93CheckOne T.code93Alphabet s (s.length - 2) 20 = .ok () ∧
+      c93CheckOne T.code93Alphabet s (s.length - 1) 15 = .ok () ∧
+      OneDPost.c93Ext (s.take (s.length - 2)) [] = .ok h.text := by
+  unfold c93DecodeRow at hr
+  split at hr
+  · cases hr
+  · split at hr
+    · cases hr
+    · simp only [] at hr
+      split at hr
+      · cases hr
+      · rename_i result lastStart lastSize next _
+        split at hr
+        · cases hr
+        · cases hr
+        · split at hr
+          · cases hr
+          · rename_i text hfin
+            cases hr
+            refine ⟨result, ?_⟩
+            unfold c93Finish at hfin
+            split at hfin
+            · cases hfin
+            · rename_i hlen
+              split at hfin
+              · cases hfin
+              · rename_i h1
+                split at hfin
+                · cases hfin
+                · rename_i h2
+                  exact ⟨by omega, h1, h2, hfin⟩
+
+/-- the same for Code 39 with `usingCheckDigit`: a result is returned only when the last character equals
+    `alphabet[Σ index mod 43]` of the characters before it -/
+theorem code39_row_result_verifies (T : Tables) (ext : Bool) (row : List Bool) (h : Hit)
+    (hr : c39DecodeRow T true ext row = .ok h) :
+    ∃ s last want, s ≠ [] ∧ nth s (s.length - 1) = .ok last ∧
+      OneDPost.alphaAt T.code39Alphabet (Int.tmod (OneDPost.sumIdx T.code39Alphabet (s.take (s.length - 1))) 43) = .ok want ∧
+      last = want := by
+  unfold c39DecodeRow at hr
+  split at hr
+  · cases hr
+  · simp only [] at hr
+    split at hr
+    · cases hr
+    · rename_i result lastStart lastSize next _
+      split at hr
+      · cases hr
+      · split at hr
+        · cases hr
+        · rename_i text hfin
+          unfold c39Finish at hfin
+          split at hfin
+          · cases hfin
+          · rename_i hlen
+            simp only [if_true] at hfin
+            split at hfin
+            · cases hfin
+            · rename_i s' hs'
+              split at hs'
+              · cases hs'
+              · cases hs'
+              · rename_i last want hl hw
+                split at hs'
+                · cases hs'
+                · rename_i heq
+                  exact ⟨result, last, want, by intro e; apply hlen; rw [e]; rfl, hl, hw, by simpa using heq⟩
+
 end Gzx.Properties.C03Row39
